@@ -93,7 +93,7 @@ def main():
                         res["existing_tests_only_baseline_failures"] = fails
                         rc = 0
                     fails = [f for f in fails if f not in base_fail]
-                    pkgs = sorted(set(x for x in _re.findall(r"^FAIL\s+(\S+)\s", out, flags=_re.M) if "/" in x))
+                    pkgs = sorted(set(x for x in _re.findall(r"^FAIL[ \t]+(\S+)[ \t]", out, flags=_re.M) if "/" in x))
                     res["existing_tests_first_run_failures"] = fails
                     if rc == 0:
                         pass
